@@ -20,10 +20,10 @@ Pk(b) == IF b.ver # 0 \/ b.start # 0 THEN "meta" ELSE IF Len(b.ents) > 0 THEN "e
 Blk(b) == [tp |-> b.tp, pk |-> IF b.otp = 1 THEN "meta" ELSE IF b.otp = 255 THEN "end" ELSE "ents",
            sumok |-> b.sumok = 1, ents |-> Ents(b.ents), ver |-> b.ver, start |-> b.start]
 Blocks(q) == [i \in DOMAIN q |-> Blk(q[i])]
-Cache(st) == [win |-> Ents(st.win), pt |-> Ents(st.pt), pb |-> Ents(st.pb), ver |-> 7, start |-> 1000, up |-> 0]
+Cache(st) == [win |-> Ents(st.win), pt |-> Ents(st.pt), pb |-> Ents(st.pb), ver |-> sv.ver, start |-> 1000, up |-> 0]
 Freq(q) == [i \in DOMAIN q |-> <<q[i][1], q[i][5]>>]
 
-TraceInit == l = 1 /\ tid = "none" /\ sv = [state |-> <<>>] /\ viol = {} /\ div = 0 /\ nload = 0 /\ nbyte = 0 /\ nseg = 0 /\ done = FALSE
+TraceInit == l = 1 /\ tid = "none" /\ sv = [state |-> <<>>, size |-> 0, ver |-> 7] /\ viol = {} /\ div = 0 /\ nload = 0 /\ nbyte = 0 /\ nseg = 0 /\ done = FALSE
 
 LoadedSet(e) == ToSet(Ents(e.win)) \cup ToSet(Ents(e.pt)) \cup ToSet(Ents(e.pb))
 SavedSet == ToSet(Ents(sv.state.win)) \cup ToSet(Ents(sv.state.pt)) \cup ToSet(Ents(sv.state.pb))
@@ -33,7 +33,7 @@ FreqOK(e) == \A x \in ToSet(Freq(e.win) \o Freq(e.pt) \o Freq(e.pb)) :
 Step ==
   /\ l <= Len(Trace) /\ l' = l + 1 /\ UNCHANGED done
   /\ CASE Ev.ev = "saved" ->
-            /\ tid' = Ev.id /\ sv' = [state |-> Ev.state, size |-> Ev.size] /\ nseg' = nseg + 1
+            /\ tid' = Ev.id /\ sv' = [state |-> Ev.state, size |-> Ev.size, ver |-> Ev.ver] /\ nseg' = nseg + 1
             /\ UNCHANGED <<viol, div, nload, nbyte>>
        [] Ev.ev = "load" ->
             LET T == [capW |-> Ev.capW, capT |-> Ev.capT, main |-> Ev.main]
@@ -54,16 +54,16 @@ Step ==
                 v2 == IF clean /\ Ev.err = "none" /\ ~(IsPrefix(actual.win, Alive(c.win, now)) /\ IsPrefix(actual.pt, Alive(c.pt, now)) /\ IsPrefix(actual.pb, Alive(c.pb, now)))
                       THEN v1 \cup {<<"C11", tid, l, "restored_region_not_a_prefix_of_saved_region_in_saved_order">>} ELSE v1
                 v3 == IF clean /\ Ev.err = "none" /\ Ev.tsize = sv.size /\ ~(actual.win = Alive(c.win, now) /\ actual.pt = Alive(c.pt, now) /\ actual.pb = Alive(c.pb, now))
-                      THEN v2 \cup {<<"C11", tid, l, IF fits THEN "same_size_load_lost_unexpired_entries" ELSE "same_size_load_lost_entries_of_adapted_window">>} ELSE v2
+                      THEN v2 \cup {<<"C11", tid, l, IF fits \/ ~same THEN "same_size_load_lost_unexpired_entries" ELSE "same_size_load_lost_entries_of_adapted_window">>} ELSE v2
                 v4 == IF clean /\ Ev.err = "none" /\ total > Ev.tsize
-                      THEN v3 \cup {<<"C11", tid, l, IF uniform THEN "loaded_cost_above_new_capacity" ELSE "loaded_mixed_costs_above_new_capacity">>} ELSE v3
+                      THEN v3 \cup {<<"C11", tid, l, IF uniform \/ ~same THEN "loaded_cost_above_new_capacity" ELSE "loaded_mixed_costs_above_new_capacity">>} ELSE v3
                 v5 == IF clean /\ Ev.err = "none" /\ (Ev.ws # total \/ Ev.resident # Len(actual.win) + Len(actual.pt) + Len(actual.pb) \/ Ev.lenW # SumCost(actual.win) \/ Ev.lenT # SumCost(actual.pt) \/ Ev.lenB # SumCost(actual.pb))
                       THEN v4 \cup {<<"C11", tid, l, "loaded_cache_inconsistent">>} ELSE v4
                 v6 == IF clean /\ Ev.err = "none" /\ (Ev.origin_ok # 1 \/ ~FreqOK(Ev)) THEN v5 \cup {<<"C11", tid, l, "clock_origin_or_frequency_not_restored">>} ELSE v5
                 \* C12
                 v7 == IF Ev.fault = "truncate" /\ Ev.err = "none" THEN v6 \cup {<<"C12", tid, l, "truncated_stream_loaded_without_error">>} ELSE v6
                 v8 == IF Ev.err = "panic" THEN v7 \cup {<<"C12", tid, l, "load_panicked">>} ELSE v7
-                wrongver == Ev.ver # 7
+                wrongver == Ev.ver # sv.ver
                 v9 == IF ~clean /\ ~wrongver /\ ~FaultSafe(c, ar) THEN v8 \cup {<<"C12", tid, l, IF Blocks(Ev.blocks) # <<>> /\ Blocks(Ev.blocks)[1].tp # 1 THEN "damaged_stream_without_leading_metadata_block_loaded" ELSE "damaged_stream_loaded_wrong_data">>} ELSE v8
                 v10 == IF wrongver /\ ~(Ev.err # "none" /\ LoadedSet(Ev) = {}) THEN v9 \cup {<<"C12", tid, l, IF Blocks(Ev.blocks) # <<>> /\ Blocks(Ev.blocks)[1].tp # 1 THEN "other_version_loaded_from_stream_without_leading_metadata_block" ELSE "other_version_not_refused_before_loading">>} ELSE v9
                 v11 == IF Ev.fault = "version" /\ Ev.err # "version" THEN v10 \cup {<<"C12", tid, l, "version_mismatch_not_reported">>} ELSE v10
@@ -82,9 +82,9 @@ Step ==
                        origin |-> IF Ev.origin_ok = 1 THEN 1000 ELSE -1, metaSeen |-> TRUE]
                 c == Cache(sv.state)
                 v1 == IF Ev.err = "panic" THEN V("C12", "load_panicked") ELSE viol
-                v2 == IF Ev.ver = 7 /\ ~FaultSafe(c, ar) THEN v1 \cup {<<"C12", tid, l, "damaged_bytes_loaded_wrong_data">>} ELSE v1
+                v2 == IF Ev.ver = sv.ver /\ ~FaultSafe(c, ar) THEN v1 \cup {<<"C12", tid, l, "damaged_bytes_loaded_wrong_data">>} ELSE v1
                 v3 == IF Ev.fault = "bytetrunc" /\ Ev.err = "none" THEN v2 \cup {<<"C12", tid, l, "truncated_stream_loaded_without_error">>} ELSE v2
-                v4 == IF Ev.ver # 7 /\ ~(Ev.err # "none" /\ LoadedSet(Ev) = {}) THEN v3 \cup {<<"C12", tid, l, "other_version_not_refused_before_loading">>} ELSE v3
+                v4 == IF Ev.ver # sv.ver /\ ~(Ev.err # "none" /\ LoadedSet(Ev) = {}) THEN v3 \cup {<<"C12", tid, l, "other_version_not_refused_before_loading">>} ELSE v3
             IN /\ viol' = v4 /\ nbyte' = nbyte + 1 /\ UNCHANGED <<tid, sv, div, nload, nseg>>
        [] Ev.ev = "reclaim" ->
             \* C04 for restored entries: two ticks (1.1 s and 2.2 s after the earliest restored deadline) must have
